@@ -50,30 +50,49 @@ def has_suspending_loop(fn_node):
     return False
 
 
-def entry_guard(fn):
-    """recognise   if self.G: return ; self.G = True ; try: ... finally: self.G = False
-    before any suspension.  returns G or None"""
-    body = [s for s in fn.node.body if not (isinstance(s, ast.Expr) and isinstance(s.value, ast.Constant))]
-    if len(body) < 3:
+def entry_guard(fn, ctx=None, cls=None):
+    """recognise on the event paths of the wrapper coroutine (any spelling: early return, nested if, logging in the guard):
+        tested field G truthy  -> nothing is started, G is not written
+        G falsy                -> G = True before the first call-out/suspension of the activity, and G = False after the last
+                                  one on every exit (normal and exceptional)
+    returns G or None"""
+    if ctx is None:
         return None
-    g0 = body[0]
-    if not (isinstance(g0, ast.If) and len(g0.body) == 1 and isinstance(g0.body[0], ast.Return) and not g0.orelse):
-        return None
-    G = self_field(g0.test)
-    if G is None or not isinstance(g0.test, ast.Attribute):
-        return None
-    s1 = body[1]
-    if not (isinstance(s1, ast.Assign) and self_field(s1.targets[0]) == G and isinstance(s1.value, ast.Constant)
-            and s1.value.value is True):
-        return None
-    t = body[2]
-    if not isinstance(t, ast.Try) or not t.finalbody:
-        return None
-    reset = any(isinstance(s, ast.Assign) and self_field(s.targets[0]) == G and isinstance(s.value, ast.Constant)
-                and s.value.value is False for s in t.finalbody)
-    if not reset or len(body) > 3:
-        return None
-    return G
+    paths = list(ctx.paths(fn, cls))
+    cands = set()
+    for st, status in paths:
+        for e in st.events:
+            if e.kind == 'COND' and isinstance(e.a, str) and e.a.startswith('self.') and e.a[5:].isidentifier():
+                cands.add(e.a[5:])
+    for G in sorted(cands):
+        ok = True
+        n_active = 0
+        for st, status in paths:
+            evs = st.events
+            act = [i for i, e in enumerate(evs) if e.kind in ('SELFCALL', 'SUS', 'UCALL', 'SUPERCALL', 'ENTER')]
+            sts = [(i, e) for i, e in enumerate(evs) if e.kind == 'ST' and e.a == G]
+            conds = [(i, e) for i, e in enumerate(evs) if e.kind == 'COND' and e.a == 'self.' + G]
+            if not act:
+                if sts or not conds or conds[0][1].b is not True:
+                    ok = False
+                continue
+            n_active += 1
+            first, last = act[0], act[-1]
+            if not conds or conds[0][0] > first or conds[0][1].b is not False:
+                ok = False
+                continue
+
+            def const(e, v):
+                x = (e.x or {}).get('value')
+                return isinstance(x, ast.Constant) and x.value is v
+            claim = [i for i, e in sts if conds[0][0] < i < first and const(e, True)]
+            reset = [i for i, e in sts if i > last and const(e, False)]
+            early_reset = [i for i, e in sts if i < last and not const(e, True)]
+            if not claim or not reset or early_reset:
+                ok = False
+        if ok and n_active:
+            return G
+    return None
 
 
 def _awaits_activity(T):
@@ -134,7 +153,7 @@ def check_single_flight(ctx, R, classes, note_classes=()):
                         continue            # not a long-lived polling activity
                     T = cls.find(t)
                     con = ctx.construct(fn)
-                    G = entry_guard(T)
+                    G = entry_guard(T, ctx, cls)
                     ok, detail = False, ''
                     if G is not None:
                         aw_ok, aw_detail = _awaits_activity(T)
@@ -292,35 +311,89 @@ def _reads_flag(node):
     return False
 
 
+EFFECT_KINDS = ('EM', 'SUS', 'CALL', 'SELFCALL', 'UCALL', 'SUPERCALL', 'DEFER', 'ST', 'TK', 'RET', 'REL', 'ENTER')
+
+
 def check_stop_check(ctx, R, funcs):
+    """a polling loop that emits re-reads the stop flag at the top of every cycle, before the cycle's first effect:
+    in the while-test, or in a test whose stop-outcome leaves the loop (break / return) with no effect in between.
+    Decided on the event paths of the function, so the spelling of the exit (break, return from a helper, while-test,
+    `while True: if flag: break`) and temporaries do not matter."""
     for cls, fn in funcs:
         loops = [l for l in own_nodes(fn.node) if isinstance(l, (ast.While, ast.For, ast.AsyncFor))]
+        if not loops:
+            continue
+        nested = {x.name: x for x in own_nodes(fn.node) if isinstance(x, (ast.FunctionDef, ast.AsyncFunctionDef))}
+        cand = [l for l in loops if _emits_in(cls, l, nested=nested)]
+        if not cand:
+            continue
+        paths = None
         k = 0
         for l in loops:
-            polling = isinstance(l, ast.While) or (self_field(l.iter) is not None)
-            nested = {x.name: x for x in own_nodes(fn.node) if isinstance(x, (ast.FunctionDef, ast.AsyncFunctionDef))}
-            if not polling or not _emits_in(cls, l, nested=nested):
+            if l not in cand:
                 continue
-            if _inside_other(loops, l):
-                pass
-            ok, detail = False, 'a polling loop that emits never re-reads the stop flag: stop() cannot end it'
             if isinstance(l, ast.While) and _reads_flag(l.test):
-                ok = True
-            else:
-                # `if <flag>: break` must come before the cycle's first effect (call / await), otherwise a cycle
-                # begins after stop()
-                for s in l.body:
-                    if isinstance(s, ast.If) and _reads_flag(s.test) and any(isinstance(b, ast.Break) for b in s.body):
-                        ok = True
+                R.ob('STOP-CHECK', ctx.construct(fn), 'loop%d' % k, True, '', ctx.where(fn, l.lineno))
+                k += 1
+                continue
+            if not isinstance(l, ast.While) and not isinstance(l.iter, (ast.Name, ast.Attribute)):
+                continue            # iterates a freshly computed value, not a field of the source: not a polling loop
+            if isinstance(l, (ast.For, ast.AsyncFor)) and isinstance(l.iter, ast.Name) and not any(
+                    isinstance(a, ast.Assign) and isinstance(a.value, ast.Attribute) and self_field(a.value)
+                    and any(isinstance(t, ast.Name) and t.id == l.iter.id for t in a.targets) for a in own_nodes(fn.node)):
+                continue            # a local that is never bound to a field of the source
+            if paths is None:
+                paths = list(ctx.paths(fn, cls))
+            polling = isinstance(l, ast.While)
+            verdict = None      # None: no cycle seen;  True / (False, detail, events)
+            seen_exit = False
+            for st, status in paths:
+                evs = st.events
+                idx = [i for i, e in enumerate(evs) if e.kind == 'ITER' and e.depth == 0 and (e.x or {}).get('node') is not None
+                       and e.x['node'].lineno == l.lineno]
+                for n_, i in enumerate(idx):
+                    if not polling and evs[i].x.get('iter_field'):
+                        polling = True
+                    if not polling:
                         break
-                    if any(isinstance(x, (ast.Call, ast.Await, ast.Yield)) for x in ast.walk(s)):
-                        later = any(isinstance(s2, ast.If) and _reads_flag(s2.test) and any(isinstance(b, ast.Break) for b in s2.body)
-                                    for s2 in ast.walk(l) if s2 is not s)
-                        if later:
-                            detail = ('the stop flag is only read after the cycle\'s work: a polling cycle still begins (and may '
-                                      'emit) after stop()')
-                        break
-            R.ob('STOP-CHECK', ctx.construct(fn), 'loop%d' % k, ok, detail, ctx.where(fn, l.lineno))
+                    end = len(evs)
+                    for j in range(i + 1, len(evs)):
+                        e = evs[j]
+                        if e.kind in ('ITER', 'LOOPEXIT', 'LOOPCUT') and e.depth == 0 and (e.x or {}).get('node') is not None \
+                                and e.x['node'].lineno == l.lineno:
+                            end = j
+                            break
+                    seg = evs[i + 1:end]
+                    first_eff = next((j for j, e in enumerate(seg) if e.kind in EFFECT_KINDS
+                                      and not (e.kind == 'CALL' and e.a in ('debug', 'info', 'warning'))), None)
+                    checks = [j for j, e in enumerate(seg) if e.kind == 'COND' and (e.x or {}).get('node') is not None
+                              and _reads_flag(e.x['node'])]
+                    if first_eff is None:
+                        if checks:
+                            seen_exit = True
+                        continue
+                    before = [j for j in checks if j < first_eff]
+                    if before:
+                        if verdict is None:
+                            verdict = True
+                    else:
+                        later = bool(checks)
+                        verdict = (False, 'the stop flag is only read after the cycle\'s work: a polling cycle still begins (and may '
+                                   'emit) after stop()' if later else
+                                   'a polling loop that emits never re-reads the stop flag: stop() cannot end it', evs)
+                if isinstance(verdict, tuple):
+                    break
+            if not polling:
+                continue
+            if verdict is None:
+                verdict = (False, 'a polling loop that emits never re-reads the stop flag: stop() cannot end it', None)
+            if verdict is True and not seen_exit:
+                verdict = (False, 'the stop flag is tested at the top of the cycle but no outcome of the test leaves the loop '
+                           'before the cycle\'s work', None)
+            from ..paths import fmt_path
+            ok = verdict is True
+            R.ob('STOP-CHECK', ctx.construct(fn), 'loop%d' % k, ok, '' if ok else verdict[1], ctx.where(fn, l.lineno),
+                 fmt_path(verdict[2]) if not ok and verdict[2] else None)
             k += 1
 
 
@@ -329,46 +402,38 @@ def _inside_other(loops, l):
 
 
 def check_iterable_order(ctx, R):
+    """on symbolic normal forms: the emitting loop iterates self._iterable itself, emits the loop element unchanged,
+    exactly once, awaits that emission before the next element; an element is skipped only when the source was stopped"""
+    from ..symexpr import SymEval, nf
     M = ctx.model
     cls = M.cls('streamz.sources', 'from_iterable')
     fn = cls.methods.get('run')
     if fn is None:
         raise AnalysisError('anchor vanished: from_iterable.run')
     con = ctx.construct(fn)
-    loops = [l for l in own_nodes(fn.node) if isinstance(l, (ast.For, ast.AsyncFor))]
-    ok, detail, line = True, '', fn.node.lineno
-    if len(loops) != 1:
-        ok, detail = False, 'expected one loop over the iterable, found %d' % len(loops)
-    else:
-        l = loops[0]
-        line = l.lineno
-        if not (self_field(l.iter) == '_iterable' and isinstance(l.iter, ast.Attribute)):
-            ok, detail = False, 'the loop iterates %s, not the iterable itself in its own order' % src(l.iter)
-        var = l.target.id if isinstance(l.target, ast.Name) else None
-        ems = [x for x in ast.walk(l) if isinstance(x, ast.Call) and isinstance(x.func, ast.Attribute)
-               and x.func.attr in ('_emit', 'emit')]
-        if len(ems) != 1 or not ems[0].args or not (isinstance(ems[0].args[0], ast.Name) and ems[0].args[0].id == var):
-            ok, detail = False, 'each item must be emitted exactly once, as it is'
-        for x in ast.walk(l):
-            if isinstance(x, ast.Continue):
-                ok, detail = False, 'an item can be skipped (continue)'
-    R.ob('ITERABLE-ORDER', con, '_iterable', ok, detail, ctx.where(fn, line))
-    bad, n = None, 0
-    for st, status in ctx.paths(fn, cls):
-        evs = st.events
-        its = [i for i, e in enumerate(evs) if e.kind == 'ITER']
-        bounds = its + [len(evs)]
-        for a, b in zip(bounds, bounds[1:]):
-            seg = evs[a:b]
-            ems = [i for i, e in enumerate(seg) if e.kind == 'EM']
-            for i in ems:
-                if any(x.kind == 'EXC' for x in seg[i:i + 2]):
-                    continue
-                n += 1
-                tag = 'emit@%d' % seg[i].line
-                if not any(x.kind == 'SUS' and x.b and tag in x.b for x in seg[i + 1:]):
-                    bad = evs
-    from ..paths import fmt_path
-    R.ob('ITERABLE-ORDER', con, 'await-before-next', bad is None and n > 0,
-         'the next item is taken before downstream has finished with the previous one', ctx.where(fn, fn.node.lineno),
-         fmt_path(bad) if bad else None, n)
+    paths = [r for r in SymEval(M, cls).run(fn) if not r.raised]
+    emitting = [r for r in paths if r.emits]
+    if not emitting:
+        raise AnalysisError('from_iterable.run: no path emits (unrecognised spelling)')
+    bad_o, bad_a = None, None
+    for r in emitting:
+        for i, (data, md, susp, loop) in enumerate(r.emits):
+            it = loop[-1][0].replace(' ', '') if loop else None
+            if it != 'self._iterable':
+                bad_o = bad_o or 'the loop iterates %s, not the iterable itself in its own order' % (loop[-1][0] if loop else 'nothing')
+            elif nf(data) != 'ELEM(self._iterable)':
+                bad_o = bad_o or 'an item is emitted as %s, not as it is' % src(data)[:60]
+            if i not in r.awaited:
+                bad_a = bad_a or 'the next item is taken before downstream has finished with the previous one'
+        if len(r.emits) != 1:
+            bad_o = bad_o or 'each item must be emitted exactly once (found %d emissions per item)' % len(r.emits)
+    for r in paths:
+        for k, (c, o) in enumerate(r.conds):
+            if c == '<continue>':
+                bad_o = bad_o or 'an item can be skipped (continue)'
+            if c == '<break>' and not r.emits:
+                g = r.conds[k - 1] if k else None
+                if not (g and ((g[0].replace(' ', '') == 'self.stopped' and g[1]) or (g[0].replace(' ', '') == 'notself.stopped' and not g[1]))):
+                    bad_o = bad_o or 'the loop can be left early for a reason other than the source being stopped'
+    R.ob('ITERABLE-ORDER', con, '_iterable', bad_o is None, bad_o or '', ctx.where(fn, fn.node.lineno), None, len(paths))
+    R.ob('ITERABLE-ORDER', con, 'await-before-next', bad_a is None, bad_a or '', ctx.where(fn, fn.node.lineno), None, len(emitting))
